@@ -1,6 +1,7 @@
 import PqModel.SearchMulti
 import PqModel.SearchNaN
 import PqModel.SearchPages
+import PqModel.SearchPagesF
 
 /-! # C06 — Page search by value never misses a page that contains the value
 
@@ -329,5 +330,38 @@ example := find_no_miss_writer_float false 0 fNaN 2 (by decide) (by
     `boundary-order-false-nan-page`, repaired by 2854665) -/
 theorem nan_page_binary_search_misses :
     containsF false fNaN 2 2 = true ∧ binarySearchF false fNaN 2 = 3 := by decide
+
+/-- FLOAT / DOUBLE on the values (`SearchPagesF.lean`): pages of float bit patterns with NaN values among them,
+    all-NaN pages and all-null pages, ANY bounds function keeping the float contract `BoundsForF` (bounds are values of
+    the page; a bound that is not NaN encloses the non-NaN values on its side). A non-NaN value of page `p` is
+    answered with a page `r ≤ p` whose recorded bounds contain it. -/
+theorem find_no_miss_float_values {α} (nf : Bool) (z : Int) {bnd : List α → Option (α × α)} {key : α → Int}
+    {nan : α → Bool} (hb : BoundsForF bnd key nan) (pages : List (List (Option α))) (p : Nat) (hp : p < pages.length)
+    (x : α) (hx : some x ∈ pages.getD p []) (hxn : nan x = false) :
+    let ix := indexOfPagesF bnd key nan pages
+    let r := findF nf (writerOrderF z ix == 1) ix (key x)
+    r ≤ p ∧ r < ix.n ∧ containsF nf ix r (key x) = true :=
+  PqModel.Search.find_no_miss_float_values nf z hb pages p hp x hx hxn
+
+/-- `floatPage.Bounds` / `doublePage.Bounds` (MIRROR `Stats.boundsNaN`: leading NaNs skipped, NaNs ignored, an all-NaN
+    page reports a NaN pair) keeps the contract, for FLOAT (`e m = 8 23`) and DOUBLE (`11 52`) bit patterns -/
+theorem float_bounds_keep_contract (e m : Nat) :
+    BoundsForF (floatBounds e m) (PqModel.Stats.fKey e m) (PqModel.Stats.fIsNaN e m) :=
+  floatBounds_sound e m
+
+/-- DOUBLE pages {NaN, 1.0}, {NaN, NaN}, {-2.0, null}: bounds (1,1), (NaN,NaN), (-2,-2); no order is claimed, the
+    linear search finds -2.0 in page 1 already (a NaN bound excludes nothing) — at or before page 2, as stated -/
+def dPages : List (List (Option (BitVec 64))) :=
+  [[some 0x7ff8000000000000#64, some 0x3ff0000000000000#64], [some 0x7ff8000000000000#64, some 0xfff8000000000001#64],
+   [some 0xc000000000000000#64, none]]
+
+example : (indexOfPagesF (floatBounds 11 52) (PqModel.Stats.fKey 11 52) (PqModel.Stats.fIsNaN 11 52) dPages).mins =
+      [.val 4607182418800017408, .nan, .val (-4611686018427387904)] ∧
+    writerOrderF 0 (indexOfPagesF (floatBounds 11 52) (PqModel.Stats.fKey 11 52) (PqModel.Stats.fIsNaN 11 52) dPages) = 0 ∧
+    findF false false (indexOfPagesF (floatBounds 11 52) (PqModel.Stats.fKey 11 52) (PqModel.Stats.fIsNaN 11 52) dPages)
+      (PqModel.Stats.fKey 11 52 0xc000000000000000#64) = 1 := by decide
+
+example := find_no_miss_float_values false 0 (float_bounds_keep_contract 11 52) dPages 2 (by decide)
+  0xc000000000000000#64 (by decide) (by decide)
 
 end PqModel.Props.C06
